@@ -178,6 +178,13 @@ fn mode_str(m: Mode) -> &'static str {
 }
 
 fn dump_list(ml: &MorphemeList<&JapaneseDictionary>, text: &str) -> serde_json::Value {
+    match catch(|| dump_list_raw(ml, text)) {
+        Ok(v) => v,
+        Err(p) => serde_json::json!({"harness_sim_panic": p}),
+    }
+}
+
+fn dump_list_raw(ml: &MorphemeList<&JapaneseDictionary>, text: &str) -> serde_json::Value {
     let chars: Vec<char> = text.chars().collect();
     let mut out = vec![];
     for m in ml.iter() {
@@ -375,8 +382,14 @@ fn py_session(run: &mut Run, idx: usize, rng: &mut Rng, w: &World) {
                     if splitted || (add_single && !splitted) { run.bump("python-split-into-foreign-out"); }
                     // the reused list now shares the parent's text; lists that shared its old buffer are unaffected
                     // (split_into re-points `out` to the parent's buffer instead of swapping)
-                    lists[o] = (out, text);
-                    if splitted || add_single { group[o] = group[l]; alt_group[o] = None; }
+                    if splitted || add_single {
+                        lists[o] = (out, text);
+                        group[o] = group[l]; alt_group[o] = None;
+                    } else {
+                        // nothing is written: the binding only clears `out`, which keeps its OWN input buffer
+                        // (split_into returns before assign_input) - it does not come to share the parent's
+                        lists[o].0.clear();
+                    }
                     stale[o] = false;
                 }
                 None => { lists.push((out, text)); group.push(group[l]); stale.push(false); alt_group.push(None); }
@@ -437,7 +450,14 @@ fn py_session(run: &mut Run, idx: usize, rng: &mut Rng, w: &World) {
                     Some(e) => format!("exc:{}", e),
                     None => {
                         let keys = g["keys"].as_array().cloned().unwrap_or_default();
-                        match keys.iter().position(|x| x == &g["key"]) { Some(p) => format!("ok:{}", p), None => "ok:?".to_string() }
+                        // the returned morpheme is identified by (begin, end, word id); two morphemes can share that key
+                        // (zero-length units of a clamped split), so the position Python semantics prescribe is tried first
+                        let n = keys.len() as i64;
+                        let wanted = calls[*k]["arg"].as_i64().map(|i| if i < 0 { i + n } else { i }).filter(|j| *j >= 0 && *j < n);
+                        match wanted {
+                            Some(j) if keys[j as usize] == g["key"] => format!("ok:{}", j),
+                            _ => match keys.iter().position(|x| x == &g["key"]) { Some(p) => format!("ok:{}", p), None => "ok:?".to_string() },
+                        }
                     }
                 };
                 format!("{} iter={}", head, g["iter"])
@@ -531,6 +551,8 @@ pub fn source_has_d14_fix() -> bool {
 }
 
 pub fn run(run: &mut Run) {
+    // over-long input lines (16 384+ characters) with both subset tables make legitimate case lines of ~4 MB
+    run.max_payload = 24_000_000;
     run.rule = "CLI: random worlds x multi-line files (blank lines, CRLF, no final newline, long/short lines) x {wakati, -a, mode A/B/C, \
 --split-sentences default/only/none}; the real `sudachi` binary's stdout vs the model fed with the library's sentences and morphemes \
 (computed in-process); non-trivial = file has >= 2 lines and produces output; distinct by line. Python: op pymode (mode override \
